@@ -1258,6 +1258,9 @@ func (r *Run) afterWindow() {
 			r.closeSpans[len(r.closeSpans)-1][1] = e.Win
 		}
 	}
+	if v := rwViolation.Load(); v != nil && r.p.Check == "C15" {
+		r.fail("recursive-read-lock", *v)
+	}
 	if r.failed() {
 		return
 	}
@@ -1422,6 +1425,7 @@ func (r *Run) Execute() {
 	runKey := uint64(t.Draw(1<<30, "run.selectkey")) + 1
 	r.s = NewSim(runKey)
 	r.s.selectGates.Store(true)
+	resetRWHook()
 	prevSim := curSim.Swap(r.s)
 	defer curSim.Store(prevSim)
 	r.s.keepLog = 400
